@@ -172,6 +172,8 @@ def make_frames(r, n: int, frame_id: str) -> List[FrameGroundTruth]:
     # annotations may carry a stamp of their own (sensor latency: the objects a fixed few milliseconds off their frame's
     # stamp); lookups and the proportional time go by the frames' stamps
     latency = r.choice([0, 0, 0, -20_000, -5_000, 1_500])
+    # annotations without a velocity (what the loader gives an instance annotated once, or sparsely: "cannot be estimated")
+    no_velocity = r.choice(["never", "never", "some", "all"])
     ego = [r.uniform(-1e4, 1e4) if r.random() < 0.5 else r.uniform(-50, 50), r.uniform(-1e4, 1e4) if r.random() < 0.5 else r.uniform(-50, 50), 0.0]
     ego_yaw = O.rand_yaw(r)
     tilt = (r.uniform(-0.15, 0.15), r.uniform(-0.2, 0.2)) if r.random() < 0.3 else None
@@ -191,7 +193,8 @@ def make_frames(r, n: int, frame_id: str) -> List[FrameGroundTruth]:
             if r.random() < 0.25:
                 continue
             b = (tr["p"][0] + tr["v"][0] * sec, tr["p"][1] + tr["v"][1] * sec, tr["p"][2], G.wrap_pi(tr["yaw"] + tr["w"] * sec), 2.0, 4.0, 1.5)
-            o = O.obj3d(*b, uuid=u, t=t + latency, velocity=(tr["v"][0], tr["v"][1], 0.0), negate_q=r.random() < 0.4, npts=5)
+            vel = None if (no_velocity == "all" or (no_velocity == "some" and r.random() < 0.4)) else (tr["v"][0], tr["v"][1], 0.0)
+            o = O.obj3d(*b, uuid=u, t=t + latency, velocity=vel, negate_q=r.random() < 0.4, npts=5)
             if frame_id == "map" and tr.get("spot") is not None:
                 from perception_eval.common.schema import FrameID as _F
 
@@ -245,7 +248,7 @@ def run(ctx: Ctx) -> None:
             frames = make_frames(r, n, frame_id)
             tol = r.choice([0, 1, 1000, 75_000, 75_000, 300_000, 1_000_000])
             ctx.begin_case("direct", idx, n=n, frame_id=frame_id, tol=tol)
-            with ctx.case_guard("direct"):
+            with ctx.case_guard("direct", library_must_not_raise="C17/lookup_raised_on_valid_frames"):
                 for t, cls in queries(r, frames, tol):
                     ctx.evaluations += 1
                     a = base_mod.get_now_frame(frames, t, tol)
